@@ -375,19 +375,13 @@ def _evaluator(shard, nshards):
         import shutil
         import subprocess
         root = os.path.dirname(os.path.dirname(os.path.abspath(__file__)))
-        b = subprocess.run([os.path.join(root, "bounded", "build_ext.sh")], capture_output=True, text=True)
-        if b.returncode != 0:
-            raise RuntimeError("extension rebuild failed: " + b.stderr[-500:])
-        scratch = b.stdout.strip().splitlines()[-1]
-        try:
-            env = dict(os.environ, PYTHONPATH=scratch, PYTHONWARNINGS="ignore")
-            r = subprocess.run(["/venv/bin/python", os.path.join(root, "bounded", "c15_evaluator.py"), tier, str(seed), str(shard), str(nshards)],
-                               capture_output=True, text=True, env=env, cwd=scratch)
-            if r.returncode != 0:
-                raise RuntimeError("evaluator harness crashed: " + r.stderr[-800:])
-            out = json.loads(r.stdout.strip().splitlines()[-1])
-        finally:
-            shutil.rmtree(scratch, ignore_errors=True)
+        scratch = os.environ["PYVC_EXT_DIR"]       # rebuilt once per check run by the runner (bounded/build_ext.sh), removed afterwards
+        env = dict(os.environ, PYTHONPATH=scratch, PYTHONWARNINGS="ignore")
+        r = subprocess.run(["/venv/bin/python", os.path.join(root, "bounded", "c15_evaluator.py"), tier, str(seed), str(shard), str(nshards)],
+                           capture_output=True, text=True, env=env, cwd=scratch)
+        if r.returncode != 0:
+            raise RuntimeError("evaluator harness crashed: " + r.stderr[-800:])
+        out = json.loads(r.stdout.strip().splitlines()[-1])
         out["exhaustive"] = False
         out["scope"] = ("shard %d/%d: random models (1-3 variables, a parameter, a Float shared between constraints), random expression DAGs of depth <= 3 over "
                         "18 operators incl. shared sub-expressions and non-constant exponents, conditional constraints evaluated also exactly at the branch "
@@ -399,4 +393,4 @@ def _evaluator(shard, nshards):
 
 
 NSH = 4
-BOUNDED = [Bounded("C15.evaluator[%d/%d]" % (i, NSH), P, _evaluator(i, NSH), kind="differential: rebuilt C++ evaluator vs Python reference semantics") for i in range(NSH)]
+BOUNDED = [Bounded("C15.evaluator[%d/%d]" % (i, NSH), P, _evaluator(i, NSH), kind="differential: rebuilt C++ evaluator vs Python reference semantics", needs_ext=True) for i in range(NSH)]
